@@ -35,7 +35,12 @@ def cmd_ser(v, kind, cell):
             return [Problem({'C17', 'C14'}, 'serialize panicked', '')]
         if not (isinstance(t, tuple) and t[0] == 'tokens'):
             return [Problem('C17', 'serialize: malformed log', repr(t))]
-        if t[1] != want:
+        got_toks = list(t[1])
+        if got_toks != want and [x for x in got_toks if x != 'seq?'] == [x for x in want if not x.startswith('seq')]:
+            # the digits and their order are right and the sequence was opened without announcing its length: the statement
+            # fixes the elements, not the length hint (a wrong announced length is still a violation)
+            out.append(Problem({'NOTE'}, 'serialize: sequence opened without an announced length', ''))
+        elif got_toks != want:
             out.append(Problem('C17', 'serialize: token stream differs from the documented u32-digit format', 'got=%s want=%s' % (','.join(t[1])[:300], ','.join(want)[:300])))
         if res.val(1) is not True:
             out.append(Problem('C17', 'serialize returned an error', ''))
